@@ -258,14 +258,16 @@ class ParseContext:
 
     return attr_names, attr_chain
 
-  def can_resolve(self, selector):
-    """Whether `selector` names an object reachable through this context's imports.
+  def knows(self, selector):
+    """Whether `selector` names a configurable known in this context.
 
-    This is only ever true with dynamic registration, where a name is known as
-    soon as the file's own imports provide it, registered already or not.
+    Without dynamic registration that is a (partial) match in the registry. With
+    dynamic registration a name is known exactly when this file's own imports
+    provide it - registered already or not, and whatever earlier parses may have
+    registered under a matching name.
     """
     if not self._dynamic_registration:
-      return False
+      return bool(_REGISTRY.matching_selectors(selector))
     try:
       self._resolve_selector(selector)
     except (NameError, AttributeError):
@@ -877,10 +879,8 @@ def _validate_skip_unknown(skip_unknown):
 def _should_skip(selector, skip_unknown):
   """Checks whether `selector` should be skipped (if unknown)."""
   _validate_skip_unknown(skip_unknown)
-  if _REGISTRY.matching_selectors(selector):
+  if _parse_context().knows(selector):
     return False  # Never skip known configurables.
-  if _parse_context().can_resolve(selector):
-    return False  # Known through the file's imports, just not registered yet.
   if isinstance(skip_unknown, (list, tuple, set)):
     return selector in skip_unknown
   return skip_unknown  # Must be a bool by validation check.
